@@ -8,6 +8,7 @@ import (
 	"fmt"
 	"math/rand"
 	"net"
+	"net/netip"
 	"os"
 	"path/filepath"
 	"regexp"
@@ -106,6 +107,7 @@ func (o *stubOracle) GetBlockHeaderByHash(hash []byte) (*types.Header, error) {
 func (o *stubOracle) GetFinalizedStateRoot() ([]byte, error) { return make([]byte, 32), nil }
 
 type netEnv struct {
+	large     [][]byte // keys of stored items that do not fit one packet (served over uTP)
 	name      string
 	node      *pnode.Node
 	store     storage.ContentStorage
@@ -123,6 +125,9 @@ type env struct {
 	base  string
 	peer  *enode.Node // sender identity used for direct handler calls
 	paddr *net.UDPAddr
+	// sender identities with unusual records: no endpoint at all, IPv6, port 0, no version entry
+	senders []*enode.Node
+	noEP    *pnode.Adversary // a live discv5 peer whose record carries no endpoint
 }
 
 func contentID(key []byte) []byte { d := sha256.Sum256(key); return d[:] }
@@ -148,6 +153,7 @@ func newEnv(seed int64, seeds map[string][]seedKV) (*env, error) {
 	for i, name := range networks {
 		key := pnode.NewKey(rng)
 		ne := &netEnv{name: name, seeds: seeds[name]}
+		var inner storage.ContentStorage // state: the pebble store below the validating adapter
 		var nodeID enode.ID = enode.PubkeyToIDV4(&key.PublicKey)
 		open := func(sub string) (*pebble.DB, error) {
 			db, err := spebble.NewDB(base, 16, 16, name+"-"+sub)
@@ -196,7 +202,7 @@ func newEnv(seed int64, seeds map[string][]seedKV) (*env, error) {
 			if err != nil {
 				return nil, err
 			}
-			inner, err := spebble.NewStorage(cfg, db)
+			inner, err = spebble.NewStorage(cfg, db)
 			if err != nil {
 				return nil, err
 			}
@@ -256,6 +262,24 @@ func newEnv(seed int64, seeds map[string][]seedKV) (*env, error) {
 				}()
 			}
 		}
+		// synthetic stored items around and above the inline limit (FINDCONTENT must announce a uTP transfer)
+		for j, n := range []int{1100, 1175, 1176, 1300, 5000, 70000} {
+			key := []byte{map[string]byte{"history": 0x00, "beacon": 0x10, "state": 0x21}[name], byte(j), 0xC0, 0x01}
+			key = append(key, bytes.Repeat([]byte{byte(j + 1)}, 29)...)
+			val := bytes.Repeat([]byte{byte(0x40 + j)}, n)
+			func() {
+				defer func() { _ = recover() }()
+				var err error
+				if inner != nil {
+					err = inner.Put(key, contentID(key), val)
+				} else {
+					err = ne.store.Put(key, contentID(key), val)
+				}
+				if err == nil {
+					ne.large = append(ne.large, key)
+				}
+			}()
+		}
 		e.nets[name] = ne
 	}
 	for i := 0; i < 4; i++ {
@@ -268,12 +292,25 @@ func newEnv(seed int64, seeds map[string][]seedKV) (*env, error) {
 	pk := pnode.NewKey(rng)
 	e.peer = pnode.SignedNode(pk, pnode.Addr4(10, 0, 3, 1, 9200).Addr(), 9200, 1, pnode.VersionsEntry([]uint8{0, 1}))
 	e.paddr = &net.UDPAddr{IP: net.IP{10, 0, 3, 1}, Port: 9200}
+	e.senders = []*enode.Node{
+		e.peer,
+		pnode.SignedNode(pnode.NewKey(rng), netip.Addr{}, 0, 1, pnode.VersionsEntry([]uint8{0, 1})),                       // no ip, no udp
+		pnode.SignedNode(pnode.NewKey(rng), netip.MustParseAddr("2001:db8::7"), 9300, 2, pnode.VersionsEntry([]uint8{0})), // IPv6, version 0
+		pnode.SignedNode(pnode.NewKey(rng), pnode.Addr4(10, 0, 3, 9, 0).Addr(), 0, 3),                                     // ip but no udp port, no version entry
+	}
+	e.noEP, err = e.hub.StartAdversary(pnode.AdvOpts{Key: pnode.NewKey(rng), Addr: pnode.Addr4(10, 0, 2, 99, 9199), Versions: []uint8{0, 1}, RespTimeout: 400 * time.Millisecond, NoEndpoint: true})
+	if err != nil {
+		return nil, err
+	}
 	return e, nil
 }
 
 func (e *env) close() {
 	for _, a := range e.advs {
 		a.Stop()
+	}
+	if e.noEP != nil {
+		e.noEP.Stop()
 	}
 	for _, ne := range e.nets {
 		ne.stop()
